@@ -3,7 +3,7 @@ use rand::Rng;
 use super::{InBmca, Port, PortActionIterator, Running};
 use crate::{
     bmc::bmca::{BestAnnounceMessage, RecommendedState},
-    config::{AcceptableMasterList, LeapIndicator, TimePropertiesDS, TimeSource},
+    config::{AcceptableMasterList, TimePropertiesDS},
     datastructures::{
         common::{ClockIdentity, TlvType},
         datasets::{InternalCurrentDS, InternalDefaultDS, InternalParentDS, PathTraceDS},
@@ -163,6 +163,7 @@ impl<A, C: Clock, F: Filter, R: Rng, S: PtpInstanceStateMutex> Port<'_, InBmca, 
         recommended_state: RecommendedState,
         path_trace_ds: &mut PathTraceDS,
         time_properties_ds: &mut TimePropertiesDS,
+        local_time_properties_ds: &TimePropertiesDS,
         current_ds: &mut InternalCurrentDS,
         parent_ds: &mut InternalParentDS,
         default_ds: &InternalDefaultDS,
@@ -180,12 +181,8 @@ impl<A, C: Clock, F: Filter, R: Rng, S: PtpInstanceStateMutex> Port<'_, InBmca, 
                 parent_ds.grandmaster_priority_1 = defaultds.priority_1;
                 parent_ds.grandmaster_priority_2 = defaultds.priority_2;
 
-                time_properties_ds.leap_indicator = LeapIndicator::NoLeap;
-                time_properties_ds.current_utc_offset = None;
-                time_properties_ds.ptp_timescale = true;
-                time_properties_ds.time_traceable = false;
-                time_properties_ds.frequency_traceable = false;
-                time_properties_ds.time_source = TimeSource::InternalOscillator;
+                // As grandmaster we announce the properties of our own clock
+                *time_properties_ds = *local_time_properties_ds;
 
                 path_trace_ds.list.clear();
             }
